@@ -6,6 +6,7 @@ import Cte.Model.Json
 import Cte.Model.Decode
 import Cte.Model.Check
 import Cte.Model.Purge
+import Cte.Model.Energy
 open Cte
 
 def warnKindStr : WarnKind → String
@@ -38,6 +39,88 @@ def opPurge (m : Model) : J :=
     ("day", jStrs (p.schedules.day.map (·.id))),
     ("idempotent", J.bool (decide (p2 = p)))]
 
+def jr (r : Rat) : J := J.ofRat r 9
+def jo (r : Option Rat) : J := match r with | some x => jr x | none => J.null
+def jnv (r : Option NV) : J := match r with
+  | some x => J.obj [("v", jr x.v), ("nf", J.bool x.nf)]
+  | none => J.null
+def jvent : Vent → J
+  | .fin r => jr r
+  | .inf => J.str "inf"
+  | .nan => J.str "nan"
+
+def tbKindStr : TbKind → String
+  | .roof => "roof" | .balcony => "balcony" | .corner => "corner"
+  | .intermediatefloor => "intermediate_floor" | .internalwall => "internal_wall"
+  | .groundfloor => "ground_floor" | .pillar => "pillar" | .window => "window" | .generic => "generic"
+
+def orientOfStr : String → Option Orient
+  | "N" => some .n | "NE" => some .ne | "E" => some .e | "SE" => some .se | "S" => some .s
+  | "SW" => some .sw | "W" => some .w | "NW" => some .nw | "HZ" => some .hz | _ => none
+
+def jKElem (e : KElem) : J :=
+  J.obj [("a", jr e.a), ("au", jr e.au), ("u_max", jo e.uMax), ("u_min", jo e.uMin), ("u_mean", jo e.uMean)]
+
+/-- op `indicators`: request carries the model, the obstruction factors computed by the
+implementation (`fshobst`: window id → number|null) and the July irradiation per orientation
+(`radjul`) -/
+def indicatorsWith (F : Fns) (req : J) (m : Model) : J :=
+  let fshJ := (req.get? "fshobst").getD (J.obj [])
+  let fsh : Id → Option Rat := fun id => match fshJ.get? id with
+    | some (J.num n mm e) => some (J.numVal n mm e)
+    | _ => none
+  let radJ := (req.get? "radjul").getD (J.obj [])
+  let rad : Orient → Option Rat := fun o => match radJ.get? o.str with
+    | some (J.num n mm e) => some (J.numVal n mm e)
+    | _ => none
+  let wp := m.wallProps F
+  let wc := m.winConsProps F
+  let wins := m.winProps F fsh
+  let g := m.globalProps F
+  let k := kData wp wins (lastById (·.id) m.thermalBridges)
+  let n := n50Data wp wins wc g.volEnvNet g.cO100 m.info.n50Test
+  let q := qSolJul wins wc rad g.aRef
+  J.obj [
+    ("walls", J.obj (wp.map (fun w => (w.id, J.obj [
+      ("u", jnv w.u), ("is_tenv", J.bool w.isTenv), ("area_net", jr w.areaNet), ("area_gross", jr w.areaGross),
+      ("tilt", J.str w.tilt.str), ("orient", J.str w.orient.str), ("multiplier", jr w.multiplier),
+      ("bounds", J.str w.bounds.str)])))),
+    ("wall_area_net_raw", J.obj ((lastById (·.id) m.walls).map (fun w => (w.id, jr (w.areaNetRaw m.windows))))),
+    ("wincons", J.obj (wc.map (fun c => (c.id, J.obj [
+      ("u", jo c.u), ("g_glwi", jr c.gGlwi), ("g_glshwi", jr c.gGlshwi), ("c_100", jr c.c100), ("f_f", jr c.fF)])))),
+    ("wincons_u_raw", J.obj ((lastById (·.id) m.cons.wincons).map (fun c => (c.id, jo (c.uValueRaw m.cons))))),
+    ("windows", J.obj (wins.map (fun w => (w.id, J.obj [
+      ("is_tenv", J.bool w.isTenv), ("orient", J.str w.orient.str), ("area", jr w.area),
+      ("multiplier", jr w.multiplier), ("u", jo w.u), ("bounds", J.str w.bounds.str)])))),
+    ("global", J.obj [
+      ("a_ref", jr g.aRef), ("a_ref_raw", jr g.aRefRaw), ("vol_env_gross", jr g.volEnvGross),
+      ("vol_env_gross_raw", jr g.volEnvGrossRaw), ("vol_env_net", jr g.volEnvNet),
+      ("vol_env_net_raw", jr g.volEnvNetRaw), ("vol_env_inh_net", jr g.volEnvInhNet),
+      ("compactness", jr g.compactness), ("exposed_area", jr g.exposedArea),
+      ("ventilation", jvent g.ventilation), ("ventilation_u", jvent (m.globalVentilationU F)),
+      ("c_o_100", jr g.cO100)]),
+    ("K", J.obj [
+      ("K", jr k.k), ("a", jr k.a), ("au", jr k.au), ("opaques_a", jr k.opaquesA), ("opaques_au", jr k.opaquesAu),
+      ("windows_a", jr k.windowsA), ("windows_au", jr k.windowsAu), ("tbs_l", jr k.tbsL), ("tbs_psil", jr k.tbsPsil),
+      ("walls", jKElem k.walls), ("roofs", jKElem k.roofs), ("floors", jKElem k.floors),
+      ("ground", jKElem k.ground), ("windows", jKElem k.windows),
+      ("tbs", J.obj (k.tbs.map (fun (kd, l, pl) => (tbKindStr kd, J.obj [("l", jr l), ("psil", jr pl)]))))]),
+    ("n50", J.obj [
+      ("n50", jr n.n50), ("n50_ref", jr n.n50Ref), ("walls_a", jr n.wallsA), ("walls_c_ref", jr n.wallsCRef),
+      ("walls_c_a_ref", jr n.wallsCARef), ("walls_c", jr n.wallsC), ("walls_c_a", jr n.wallsCA),
+      ("windows_a", jr n.windowsA), ("windows_c", jr n.windowsC), ("windows_c_a", jr n.windowsCA), ("vol", jr n.vol)]),
+    ("qsoljul", J.obj [
+      ("Q_soljul", jr q.qSum), ("a_ref", jr q.aRef), ("a_wp", jr q.aWp), ("irr_sum", jr q.irrSum),
+      ("fsh_sum", jr q.fshSum), ("g_sum", jr q.gSum), ("ff_sum", jr q.fFSum), ("missing_rad", J.bool q.missingRad),
+      ("detail", J.obj (q.detail.map (fun d => (d.orient.str, J.obj [
+        ("gains", jr d.gains), ("a", jr d.a), ("irradiance", jr d.irradiance), ("ff_sum", jr d.fFSum),
+        ("g_sum", jr d.gSum), ("fsh_sum", jr d.fshSum)]))))])]
+
+/-- the three runs: exact rounding, and every rounding nudged down / up by about one f32 ulp -/
+def opIndicators (req : J) (m : Model) : J :=
+  J.obj [("base", indicatorsWith (Fns.approx 0) req m), ("lo", indicatorsWith (Fns.approx (-1)) req m),
+         ("hi", indicatorsWith (Fns.approx 1) req m)]
+
 def withModel (req : J) (f : Model → J) : J :=
   match req.get? "model" with
   | none => J.obj [("error", J.str "no model")]
@@ -55,6 +138,7 @@ def handle (line : String) : String :=
       match req.get? "op" with
       | some (J.str "check") => withModel req opCheck
       | some (J.str "purge") => withModel req opPurge
+      | some (J.str "indicators") => withModel req (opIndicators req)
       | some (J.str "load") => withModel req (fun _ => J.obj [("ok", J.bool true)])
       | _ => J.obj [("error", J.str "unknown op")]
     match ans with
